@@ -514,10 +514,17 @@ impl Wal {
 
         let offset = file.metadata()?.len();
         file.seek(SeekFrom::End(0))?;
-        file.write_all(&len.to_le_bytes())?;
-        file.write_all(&crc.to_le_bytes())?;
-        file.write_all(&body)?;
-        file.flush()?;
+        let written = file
+            .write_all(&len.to_le_bytes())
+            .and_then(|_| file.write_all(&crc.to_le_bytes()))
+            .and_then(|_| file.write_all(&body))
+            .and_then(|_| file.flush());
+        if let Err(e) = written {
+            // Do not leave part of a record in the middle of the log: records appended
+            // later would sit behind unreadable bytes and be lost on the next open.
+            let _ = file.set_len(offset);
+            return Err(e.into());
+        }
         Ok(offset)
     }
 
@@ -526,6 +533,21 @@ impl Wal {
             return Err(Error::WalProtocol("wal file is closed"));
         };
         file.sync_data()?;
+        Ok(())
+    }
+
+    /// Rolls the log back to `offset` (the start offset of a record returned by
+    /// [`Wal::append`]). Used to take back the records of a transaction whose logging
+    /// or fsync failed, so that the log never holds a transaction the caller was told
+    /// had failed.
+    pub fn truncate_to(&mut self, offset: u64) -> Result<()> {
+        let Some(file) = self.file.as_mut() else {
+            return Err(Error::WalProtocol("wal file is closed"));
+        };
+        if file.metadata()?.len() > offset {
+            file.set_len(offset)?;
+            file.sync_data()?;
+        }
         Ok(())
     }
 
